@@ -297,6 +297,42 @@ pub fn run(ctx: &'static Ctx) {
     ctx.tr(mbound.load(Ordering::Relaxed));
     ctx.st(mbound.load(Ordering::Relaxed));
     ctx.engine("E4.call-site-many-children", json!({"counts": "0..=300, 1000, 4096, 65535, 65536, 65537", "child_widths": [1, 2, 9], "objects": mbound.load(Ordering::Relaxed), "refused_packages_over_255": mrefused.load(Ordering::Relaxed)}));
+    // children whose own bytes look like framing (the look-alike principle applied to the value of the body): one child of
+    // six bytes whose last two - and, separately, first two - bytes run over all 65 536 pairs (79 00 is the end tag a
+    // ResourceTemplate appends, 00 a terminator, ff / 5b / 10 / 14 opcodes ...): the length must not depend on them
+    let lwork: Vec<(usize, u32)> = (0..SIZED_KINDS.len()).filter(|k| crate::amlobj::takes_children(*k)).flat_map(|k| (0..0x10000u32).map(move |p| (k, p))).collect();
+    let lbound = AtomicU64::new(0);
+    lwork.par_iter().for_each(|(k, pair)| {
+        let (a, b) = ((*pair >> 8) as u8, *pair as u8);
+        for (pos, bytes) in [("tail", vec![0x0a, 0x11, 0x0a, 0x22, a, b]), ("head", vec![a, b, 0x0a, 0x11, 0x0a, 0x22])] {
+            let rep = || json!({"family":"pkglen-site","kind":SIZED_KINDS[*k],"child_bytes":hex(&bytes)});
+            let child = crate::amlobj::Bytes(bytes.clone());
+            let b2 = match catch(|| crate::amlobj::with_children(*k, vec![&child as &dyn acpi_tables::Aml])) {
+                Ok(x) => x,
+                Err(m) => {
+                    ctx.violation_sized(&format!("pkglen:site:{}:panic", SIZED_KINDS[*k]), *pair as u64, || format!("{} with a child of bytes {} panicked: {}", SIZED_KINDS[*k], hex(&bytes), m), rep);
+                    continue;
+                }
+            };
+            let ol = opcode_len(*k);
+            let rest = b2.len() - ol;
+            lbound.fetch_add(1, Ordering::Relaxed);
+            match pkg_decode(&b2[ol..]) {
+                Some((v, pw, fmt)) if fmt && v == rest && Some(pw) == pkg_width_inclusive(rest - pw) && rest >= pw + 6 => {}
+                other => {
+                    ctx.violation_sized(
+                        &format!("pkglen:site:{}", SIZED_KINDS[*k]),
+                        *pair as u64,
+                        || format!("{} with a child whose {} bytes are {:02x} {:02x}: {} bytes follow the opcode but its PkgLength {} decodes to {:?}", SIZED_KINDS[*k], pos, a, b, rest, hex(&b2[ol..(ol + 4).min(b2.len())]), other),
+                        rep,
+                    );
+                }
+            }
+        }
+    });
+    ctx.tr(lbound.load(Ordering::Relaxed));
+    ctx.st(lbound.load(Ordering::Relaxed));
+    ctx.engine("E4.call-site-lookalike-children", json!({"objects": lbound.load(Ordering::Relaxed), "child": "six bytes, last two / first two over all 65536 pairs", "kinds": 10}));
     ctx.tr(vbound.load(Ordering::Relaxed));
     ctx.st(vbound.load(Ordering::Relaxed));
     ctx.engine("E4.call-site-variants", json!({"name_forms": crate::amlobj::NAME_VARIANTS, "direct_64bit_child": [false, true], "body_pads": "0..=300, 4060..=4110, 2^20-40..=2^20", "objects": vbound.load(Ordering::Relaxed)}));
